@@ -226,12 +226,8 @@ func (m *e3Model) invoke(i, kind int, msg string) {
 	switch h.inst {
 	case -100: // head: low-level write
 		if m.closed {
-			// the low-level write refuses with the error the channel was closed with
-			text := "netty: channel closed"
-			if m.closeMsg != "x:<nil>" && len(m.closeMsg) > 2 {
-				text = m.closeMsg[2:]
-			}
-			panic(modelPanic{kind: "error", text: text, closedErr: true})
+			// the low-level write is refused with some non-nil error (which one is not specified)
+			panic(modelPanic{kind: "error", text: "*", closedErr: true})
 		}
 		if m.headWrite != nil {
 			m.headWrite(msg)
@@ -320,7 +316,18 @@ func (m *e3Model) ctxTrigger(i int, msg string) {
 }
 
 func (m *e3Model) fireException(mp *modelPanic) {
-	m.inbound(kException, 0, "x:"+mp.text)
+	m.inbound(kException, 0, mp.msg())
+}
+
+// msg is the payload id of the exception a panic is converted to (see msgMatches).
+func (mp *modelPanic) msg() string {
+	switch {
+	case mp.text == "*":
+		return "x:*"
+	case mp.kind == "string":
+		return "x:~" + mp.text
+	}
+	return "x:" + mp.text
 }
 
 // invokeMethod: recover -> (if open) FireChannelException, then close on non-timeout net.Error.
@@ -339,7 +346,7 @@ func (m *e3Model) invokeMethod(fn func()) {
 				_ = before
 				m.unknown = true
 			}
-			m.close("x:" + mp.text)
+			m.close(mp.msg())
 		}
 	}
 }
